@@ -104,6 +104,25 @@ def check(ctx):
                 if t[0] == "Call" and t[1].get("f") in ("std::ptr::read", "std::ptr::read_volatile", "std::ptr::read_unaligned") and not t[1].get("exp"):
                     nme = g["owner_fn"].split("::")[-1]
                     ctx.ob("R05.5", f"{g['owner_fn']}|moves-out-slot", nme == "consume_movable", f"{g['file']}:{t[1]['line']}", f"`{nme}` moves a payload out of the ring with ptr::read; only consume_movable may (each buffered payload is dropped once)")
+    # ------------------------------------------------------------------ R05.10 slots are written, never assigned
+    # A ring / pool slot handed to a producer (`&mut ItemType` from leak_slot / reserve_slot / the setter's parameter) holds either the Default value of the first lap or
+    # the bytes of a payload that was already delivered and destroyed.  `*slot = item` first DROPS what the slot held -- from the second lap on that is the stale copy:
+    # the delivered payload is destroyed a second time.  No library function drops a value of a payload type parameter through a reference (payloads are moved in with
+    # ptr::write and out with ptr::read; the one sanctioned destruction is dealloc_id's drop_in_place).
+    n10 = 0
+    PRIMS = {"u8", "u16", "u32", "u64", "usize", "i8", "i16", "i32", "i64", "isize", "bool", "f32", "f64", "char", "()", "str"}
+    for f in fx.fns:
+        for bi, blk in enumerate(f["blocks"]):
+            t = blk["term"]
+            if t[0] != "Drop" or blk.get("cleanup") or not isinstance(t[1], dict) or "*" not in t[1].get("p", []): continue
+            ty = str(t[5]) if len(t) > 5 else ""
+            is_param = bool(ty) and "::" not in ty and "<" not in ty and "&" not in ty and "[" not in ty and "(" not in ty and ty not in PRIMS
+            if not is_param: continue
+            n10 += 1
+            ctx.ob("R05.10", f"{f['key']}|drops-a-payload-through-a-reference|{ty}", False, f"{f['file']}:{t[4] if len(t) > 4 else f['line']}",
+                   f"a value of the payload type `{ty}` is dropped in place through a reference (an assignment `*slot = value` drops what the slot held): slots hold stale copies of "
+                   "delivered payloads from the second lap on -- use ptr::write")
+    ctx.ob("R05.10", "no-payload-dropped-through-a-reference", n10 == 0, "", f"{n10} drops of a payload-typed place behind a reference", nontrivial=False)
     # ------------------------------------------------------------------ R05.6 one OgreUnique per dequeued id
     for name in ("uni.zero_copy.atomic", "uni.zero_copy.full_sync"):
         k = f"{R.CHANNELS[name]} as {R.T_CONS}::consume"
